@@ -230,7 +230,7 @@ theorem setEq_of_perm {a b : List α} (h : a.Perm b) : setEq a b = true := by
   simp only [Bool.and_eq_true, List.all_eq_true, List.contains_iff_mem]
   exact ⟨fun x hx => h.mem_iff.mp hx, fun x hx => h.mem_iff.mpr hx⟩
 
-/-- the per-row test of the current `assert_grouped_kv_equal`: same key, values equal as multisets -/
+/-- the per-row test of `assert_grouped_kv_equal`: same key, values equal as multisets -/
 theorem groupTest_iff (r s : κ × List α) :
     (r.1 == s.1 && setEq r.2 s.2 && countsEq r.2 s.2) = true ↔ r.1 = s.1 ∧ r.2.Perm s.2 := by
   simp only [Bool.and_eq_true, beq_iff_eq]
@@ -330,5 +330,262 @@ theorem flattenGroups_perm_of_zip : ∀ (a b : List (κ × List α)), a.length =
     obtain ⟨rfl, hvw⟩ := h0
     simp only [flattenGroups, List.flatMap_cons]
     exact (hvw.map _).append ih
+
+theorem sameValues_iff (vs ws : List α) : sameValues vs ws = true ↔ vs.Perm ws := by
+  have := groupTest_iff ((), vs) ((), ws)
+  simpa [sameValues] using this
+
+/-! ## the grouped run walk = the key/value run walk on rows whose value is the group *up to order*
+
+`MSet α` is the quotient of `List α` by `Perm`; on rows `(k, ⟦vs⟧)` the grouped row test
+(`same key ∧ sameValues`) is plain equality, so every statement about `markFirst` / `matchRun` /
+`walkRuns` / `assertKv` transfers. -/
+
+/-- a group's values up to order -/
+abbrev MSet (α : Type) := Quotient (List.isSetoid α)
+
+noncomputable instance instDecEqMSet : DecidableEq (MSet α) := fun _ _ => Classical.propDecidable _
+
+/-- a grouped row with its values taken up to order -/
+def qrow (r : κ × List α) : κ × MSet α := (r.1, Quotient.mk _ r.2)
+
+theorem qrow_eq_iff (r s : κ × List α) : qrow r = qrow s ↔ r.1 = s.1 ∧ r.2.Perm s.2 := by
+  cases r; cases s
+  simp only [qrow, Prod.mk.injEq]
+  exact ⟨fun ⟨h1, h2⟩ => ⟨h1, Quotient.exact h2⟩, fun ⟨h1, h2⟩ => ⟨h1, Quotient.sound h2⟩⟩
+
+theorem sameValues_eq_beq (row e : κ × List α) :
+    sameValues row.2 e.2 = ((qrow e).2 == (qrow row).2) := by
+  rw [Bool.eq_iff_iff, sameValues_iff, beq_iff_eq]
+  exact ⟨fun h => Quotient.sound h.symm, fun h => (Quotient.exact h).symm⟩
+
+theorem markFirstG_eq (row : κ × List α) : ∀ (re : List (κ × List α)) (used : List Bool),
+    markFirstG row re used = markFirst (qrow row) (re.map qrow) used
+  | [], _ => by simp [markFirstG, markFirst]
+  | _ :: _, [] => by simp [markFirstG, markFirst]
+  | e :: es, u :: us => by
+    have ih := markFirstG_eq row es us
+    simp only [markFirstG, markFirst, List.map_cons, ih, sameValues_eq_beq row e]
+    rfl
+
+theorem matchRunG_eq : ∀ (ra re : List (κ × List α)) (used : List Bool),
+    matchRunG ra re used = matchRun (ra.map qrow) (re.map qrow) used
+  | [], _, _ => by simp [matchRunG, matchRun]
+  | row :: rest, re, used => by
+    simp only [matchRunG, matchRun, List.map_cons, markFirstG_eq]
+    cases markFirst (qrow row) (re.map qrow) used with
+    | none => rfl
+    | some used' => exact matchRunG_eq rest re used'
+
+theorem walkRunsG_eq : ∀ (fuel : Nat) (a e : List (κ × List α)),
+    walkRunsG fuel a e = walkRuns fuel (a.map qrow) (e.map qrow)
+  | _, [], _ => by simp [walkRunsG, walkRuns]
+  | 0, _ :: _, _ => by simp [walkRunsG, walkRuns]
+  | fuel + 1, (k, vs) :: rest, e => by
+    have htw : ((rest.map qrow).takeWhile (fun r => r.1 == k)).length =
+        (rest.takeWhile (fun r => r.1 == k)).length := by
+      rw [List.takeWhile_map, List.length_map]; rfl
+    simp only [walkRunsG, walkRuns, List.map_cons, qrow, htw]
+    rw [matchRunG_eq, walkRunsG_eq fuel]
+    simp only [List.map_take, List.map_drop, List.map_cons, qrow]
+
+theorem sortByKey_map_qrow (le : κ → κ → Bool) (l : List (κ × List α)) :
+    (sortByKey le l).map qrow = sortByKey le (l.map qrow) :=
+  List.map_mergeSort (fun _ _ _ _ => rfl)
+
+/-- the current grouped assertion is the key/value assertion on the rows `(k, ⟦vs⟧)` -/
+theorem assertGrouped_eq_assertKv (le : κ → κ → Bool) (a b : List (κ × List α)) :
+    assertGrouped le a b = assertKv le (a.map qrow) (b.map qrow) := by
+  simp only [assertGrouped, assertKv, walkRunsG_eq, sortByKey_map_qrow]
+  rw [← sortByKey_map_qrow, ← sortByKey_map_qrow, List.length_map, List.length_map]
+
+/-- `l` is a rearrangement of the image of `b`: rearrange `b` itself -/
+theorem exists_perm_map_eq {β γ : Type} (f : β → γ) : ∀ {l m : List γ}, l.Perm m →
+    ∀ b : List β, m = b.map f → ∃ b' : List β, b'.Perm b ∧ b'.map f = l := by
+  intro l m h
+  induction h with
+  | nil =>
+    intro b hb
+    exact ⟨[], by rw [List.eq_nil_of_map_eq_nil hb.symm], rfl⟩
+  | cons x _ ih =>
+    intro b hb
+    match b, hb with
+    | y :: b1, hb =>
+      simp only [List.map_cons, List.cons.injEq] at hb
+      obtain ⟨b1', hp, hm⟩ := ih b1 hb.2
+      exact ⟨y :: b1', hp.cons y, by simp [hm, hb.1]⟩
+  | swap x y t =>
+    intro b hb
+    match b, hb with
+    | u :: v :: b2, hb =>
+      simp only [List.map_cons, List.cons.injEq] at hb
+      exact ⟨v :: u :: b2, List.Perm.swap _ _ _, by simp [hb.1, hb.2.1, hb.2.2]⟩
+  | trans _ _ ih1 ih2 =>
+    intro b hb
+    obtain ⟨b2, hp2, hm2⟩ := ih2 b hb
+    obtain ⟨b1, hp1, hm1⟩ := ih1 b2 hm2.symm
+    exact ⟨b1, hp1.trans hp2, hm1⟩
+
+/-- position-wise "same key, values equal as multisets" ↔ equal images under `qrow` -/
+theorem map_qrow_eq_iff_zip : ∀ (a b : List (κ × List α)),
+    a.map qrow = b.map qrow ↔
+      (a.length = b.length ∧ ∀ p ∈ a.zip b, p.1.1 = p.2.1 ∧ p.1.2.Perm p.2.2)
+  | [], [] => by simp
+  | [], _ :: _ => by simp
+  | _ :: _, [] => by simp
+  | x :: a, y :: b => by
+    have ih := map_qrow_eq_iff_zip a b
+    simp only [List.map_cons, List.cons.injEq, ih, qrow_eq_iff, List.length_cons,
+      Nat.add_right_cancel_iff, List.zip_cons_cons, List.mem_cons, forall_eq_or_imp]
+    constructor
+    · rintro ⟨h1, h2, h3⟩; exact ⟨h2, h1, h3⟩
+    · rintro ⟨h2, h1, h3⟩; exact ⟨h1, h2, h3⟩
+
+/-- equal as multisets of groups, without the quotient: `b` can be rearranged so that the two sides
+    agree position by position in key and value multiset -/
+theorem perm_map_qrow_iff (a b : List (κ × List α)) :
+    (a.map qrow).Perm (b.map qrow) ↔
+      ∃ b', b'.Perm b ∧ a.length = b'.length ∧
+        ∀ p ∈ a.zip b', p.1.1 = p.2.1 ∧ p.1.2.Perm p.2.2 := by
+  constructor
+  · intro h
+    obtain ⟨b', hp, hm⟩ := exists_perm_map_eq qrow h b rfl
+    exact ⟨b', hp, (map_qrow_eq_iff_zip a b').mp hm.symm⟩
+  · rintro ⟨b', hp, hz⟩
+    rw [(map_qrow_eq_iff_zip a b').mpr hz]
+    exact hp.map qrow
+
+/-- occurrences of a group up to order = rows passing the grouped row test against it -/
+theorem count_qrow (l : List (κ × List α)) (k : κ) (vs : List α) :
+    (l.map qrow).count (qrow (k, vs)) = l.countP (fun r => r.1 == k && sameValues r.2 vs) := by
+  rw [List.count_eq_countP, List.countP_map]
+  apply List.countP_congr
+  intro r _
+  simp only [Function.comp, beq_iff_eq, qrow_eq_iff, Bool.and_eq_true, sameValues_iff]
+
+theorem eq_of_mem_zip_self {β : Type} : ∀ (a : List β) (p : β × β), p ∈ a.zip a → p.1 = p.2
+  | [], _, h => by simp at h
+  | x :: a, p, h => by
+    simp only [List.zip_cons_cons, List.mem_cons] at h
+    rcases h with rfl | h
+    · rfl
+    · exact eq_of_mem_zip_self a p h
+
+/-! ## maps (`assert_maps_equal`) -/
+
+theorem lookup_insertKV (k : κ) (v : α) (k' : κ) : ∀ (m : List (κ × α)),
+    (insertKV k v m).lookup k' = if k' = k then some v else m.lookup k'
+  | [] => by
+    by_cases h : k' = k
+    · subst h; simp [insertKV]
+    · have hb : (k' == k) = false := by simpa using h
+      simp [insertKV, List.lookup_cons, hb, h]
+  | (k1, v1) :: t => by
+    have ih := lookup_insertKV k v k' t
+    by_cases h1 : k1 = k
+    · subst h1
+      by_cases h : k' = k1
+      · subst h; simp [insertKV]
+      · have hb : (k' == k1) = false := by simpa using h
+        simp [insertKV, List.lookup_cons, hb, h]
+    · have hb1 : (k1 == k) = false := by simpa using h1
+      by_cases h2 : k' = k1
+      · subst h2
+        simp [insertKV, hb1, h1]
+      · have hb2 : (k' == k1) = false := by simpa using h2
+        simp [insertKV, List.lookup_cons, hb1, hb2, ih]
+
+theorem keys_insertKV (k : κ) (v : α) : ∀ (m : List (κ × α)),
+    ∀ x, x ∈ (insertKV k v m).map Prod.fst ↔ x = k ∨ x ∈ m.map Prod.fst
+  | [], x => by simp [insertKV]
+  | (k1, v1) :: t, x => by
+    have ih := keys_insertKV k v t x
+    by_cases h1 : k1 = k
+    · subst h1; simp [insertKV]
+    · simp only [insertKV, beq_iff_eq, h1, ↓reduceIte, List.map_cons, List.mem_cons, ih]
+      constructor
+      · rintro (h | h | h)
+        · exact Or.inr (Or.inl h)
+        · exact Or.inl h
+        · exact Or.inr (Or.inr h)
+      · rintro (h | h | h)
+        · exact Or.inr (Or.inl h)
+        · exact Or.inl h
+        · exact Or.inr (Or.inr h)
+
+theorem nodup_insertKV (k : κ) (v : α) : ∀ (m : List (κ × α)), (m.map Prod.fst).Nodup →
+    ((insertKV k v m).map Prod.fst).Nodup
+  | [], _ => by simp [insertKV]
+  | (k1, v1) :: t, h => by
+    simp only [List.map_cons, List.nodup_cons] at h
+    by_cases h1 : k1 = k
+    · subst h1; simpa [insertKV] using h
+    · simp only [insertKV, beq_iff_eq, h1, ↓reduceIte, List.map_cons, List.nodup_cons]
+      refine ⟨?_, nodup_insertKV k v t h.2⟩
+      intro hm
+      rcases (keys_insertKV k v t k1).mp hm with h' | h'
+      · exact h1 h'
+      · exact h.1 h'
+
+theorem foldl_insertKV_nodup : ∀ (rows m : List (κ × α)), (m.map Prod.fst).Nodup →
+    ((rows.foldl (fun m r => insertKV r.1 r.2 m) m).map Prod.fst).Nodup
+  | [], _, h => h
+  | r :: rows, m, h => foldl_insertKV_nodup rows _ (nodup_insertKV r.1 r.2 m h)
+
+/-- the value a sequence of inserts leaves for a key is the LAST one inserted for it -/
+theorem foldl_insertKV_lookup (k : κ) : ∀ (rows m : List (κ × α)),
+    (rows.foldl (fun m r => insertKV r.1 r.2 m) m).lookup k =
+      (rows.reverse.lookup k).or (m.lookup k)
+  | [], m => by simp
+  | (k1, v1) :: rows, m => by
+    rw [List.foldl_cons, foldl_insertKV_lookup k rows, lookup_insertKV, List.reverse_cons,
+      List.lookup_append]
+    by_cases h : k = k1
+    · subst h; cases (rows.reverse.lookup k) <;> simp [List.lookup]
+    · have hb : (k == k1) = false := by simpa using h
+      cases (rows.reverse.lookup k) <;> simp [List.lookup, h, hb]
+
+/-- with pairwise distinct keys, `lookup` finds exactly the entries -/
+theorem lookup_eq_some_iff_mem : ∀ (m : List (κ × α)), (m.map Prod.fst).Nodup →
+    ∀ k v, m.lookup k = some v ↔ (k, v) ∈ m
+  | [], _, k, v => by simp [List.lookup]
+  | (k1, v1) :: t, h, k, v => by
+    simp only [List.map_cons, List.nodup_cons, List.mem_map, not_exists, not_and] at h
+    have ih := lookup_eq_some_iff_mem t h.2 k v
+    by_cases hk : k = k1
+    · subst hk
+      simp only [List.lookup_cons, beq_self_eq_true, Option.some.injEq, List.mem_cons,
+        Prod.mk.injEq, true_and]
+      constructor
+      · intro h'; exact Or.inl h'.symm
+      · rintro (h' | h')
+        · exact h'.symm
+        · exact absurd rfl (h.1 (k, v) h')
+    · have hb : (k == k1) = false := by simpa using hk
+      simp [List.lookup_cons, hb, ih, hk]
+
+theorem nodup_of_nodup_keys {β γ : Type} (l : List (β × γ)) (h : (l.map Prod.fst).Nodup) : l.Nodup := by
+  induction l with
+  | nil => exact List.nodup_nil
+  | cons x t ih =>
+    simp only [List.map_cons, List.nodup_cons, List.mem_map, not_exists, not_and] at h ⊢
+    exact ⟨fun hx => h.1 x hx rfl, ih h.2⟩
+
+/-- a duplicate-free list included in a list of the same length is a rearrangement of it -/
+theorem perm_of_subset_of_length_eq : ∀ (e a : List α), e.Nodup → (∀ x ∈ e, x ∈ a) →
+    a.length = e.length → a.Perm e
+  | [], a, _, _, hl => by
+    have : a = [] := List.length_eq_zero_iff.mp hl
+    subst this; exact List.Perm.refl _
+  | x :: e, a, hnd, hsub, hl => by
+    have hx : x ∈ a := hsub x List.mem_cons_self
+    have hnd' := List.nodup_cons.mp hnd
+    have hsub' : ∀ y ∈ e, y ∈ a.erase x := by
+      intro y hy
+      have hne : y ≠ x := fun h => hnd'.1 (h ▸ hy)
+      exact (List.mem_erase_of_ne hne).mpr (hsub y (List.mem_cons_of_mem _ hy))
+    have hl' : (a.erase x).length = e.length := by
+      rw [List.length_erase_of_mem hx]; simp only [List.length_cons] at hl; omega
+    exact (List.perm_cons_erase hx).trans ((perm_of_subset_of_length_eq e _ hnd'.2 hsub' hl').cons x)
 
 end IB.Assertions
